@@ -45,6 +45,8 @@ const (
 	aArmedBad // timer armed with something that is positively not initialDelay
 	aIdleOK   // a section restored the idle window state at an expiry
 	aR        // read lock held
+	aClosedF  // the closed flag was observed false in the current write-lock section
+	aHeld     // the entry point being explored holds its own count in the wait group (registered, Done deferred)
 )
 
 const aIterBits = aCaseIn | aCaseExp | aFirst | aCapPath | aArmedInit | aFlagT | aFlagF | aTimerNil | aCurInit | aBfOne | aSectionDone | aExpOK | aFirstOK | aCapOK | aArmedBad | aIdleOK
@@ -388,6 +390,14 @@ func (a *c09Acct) edge(pf *PathFlow, from, to *ssa.BasicBlock, st PState) []PSta
 				}
 			case tx.kind == 2 && tx.field == k.fPend && (ty.kind == 3 || ty.kind == 2) && ty.field == k.fCap:
 				a.capCmp[op.String()] = a.k.p.Pos(instrPos(from.Instrs[len(from.Instrs)-1]))
+				// the direction of the cap test: Add counts independently of the run loop, so the count can pass the
+				// cap between two token handlings; only "count >= cap" (false edge: <) covers every reached/passed count
+				wrong := op == token.GTR || op == token.LEQ || op == token.EQL || op == token.NEQ
+				a.note("C09.L7-handlers", k.fname(from.Parent())+" cap comparison", a.capCmp[op.String()], "the pending count is compared with the cap by >=",
+					"the pending count is compared with the cap by "+map[bool]string{true: "== (or !=)", false: "a strict >"}[op == token.EQL || op == token.NEQ]+": Add counts independently of the run loop, so a count that reaches or jumps past the cap between two token handlings does not fire immediately (with == it never fires again in that window)", wrong)
+				if wrong {
+					a.diag["capWrong"] = "1"
+				}
 				i, ok := a.loadIdx(tx.ld)
 				if op == token.GEQ && ok && st.B&c09Bit(i, bCur) != 0 && st.A&aW != 0 {
 					st.A |= aCapPath
@@ -405,6 +415,9 @@ func (a *c09Acct) edge(pf *PathFlow, from, to *ssa.BasicBlock, st PState) []PSta
 			}
 			if fl == k.fClosed && k.fClosed != "" && f.Truth {
 				st.A |= aClosedK
+			}
+			if fl == k.fClosed && k.fClosed != "" && !f.Truth && st.A&(aW|aR) != 0 {
+				st.A |= aClosedF
 			}
 		}
 	}
@@ -624,6 +637,9 @@ func (a *c09Acct) instr(pf *PathFlow, in ssa.Instruction, replay bool, st PState
 		if isDefer && !replay {
 			// registration of a deferred call: pairs a preceding wg.Add with this function's own Done
 			if a.callsDone(pf, x) {
+				if st.A&aAdded != 0 || (a.rootKind == "go" && pf.Depth() == 0) {
+					st.A |= aHeld // registered: the count is held until this function returns
+				}
 				st.A &^= aAdded
 			}
 			return one(st)
@@ -633,19 +649,20 @@ func (a *c09Acct) instr(pf *PathFlow, in ssa.Instruction, replay bool, st PState
 			case opLock:
 				st = c09ClearKnowledge(st)
 				st.A |= aW
-				st.A &^= aInc | aTok
+				st.A &^= aInc | aTok | aClosedF
 			case opUnlock:
 				if st.A&aW != 0 {
 					st = a.sectionEnd(st, in)
 				}
 				st = c09ClearKnowledge(st)
-				st.A &^= aW
+				st.A &^= aW | aClosedF
 			case opRLock:
 				st = c09ClearKnowledge(st)
 				st.A |= aR
+				st.A &^= aClosedF
 			default:
 				st = c09ClearKnowledge(st)
-				st.A &^= aR
+				st.A &^= aR | aClosedF
 			}
 			return one(st)
 		}
@@ -667,6 +684,16 @@ func (a *c09Acct) instr(pf *PathFlow, in ssa.Instruction, replay bool, st PState
 		switch {
 		case k.wgCall(x, "Add"):
 			st.A |= aAdded
+			// L12: Close marks the limiter closed, passes the lock as a barrier and then waits: an Add is seen by
+			// that Wait only if it is made under the write lock after finding the limiter not closed, or while the
+			// counter is certainly positive because the running entry point holds its own count
+			if k.fClosed == "" {
+				a.problem("the closed flag could not be identified (needed to decide whether wg.Add is atomic with the closed check)")
+			} else {
+				a.note("C09.L12-add-registered", k.fname(in.Parent())+" wg.Add", a.pos(in), "wg.Add is made under the lock after the limiter was found not closed in the same section, or while the running entry point holds its own count",
+					"wg.Add is made neither inside the lock section that found the limiter not closed nor while the running entry point holds its own count: a Close that runs in between passes its lock barrier, finds the wait group empty and returns while this goroutine is still running (and the Add races Wait)",
+					!((st.A&(aW|aR) != 0 && st.A&aClosedF != 0) || st.A&aHeld != 0))
+			}
 		case k.wgCall(x, "Done"):
 			st.A |= aDone
 		case k.wgCall(x, "Wait"):
